@@ -105,7 +105,7 @@ func init() {
 	harness.Register(&harness.Prop{
 		ID: "C01", Engine: "E1", Level: "exploration",
 		Gen: genC01, Exec: execC01,
-		Runs:      map[string]int{"quick": 24000, "thorough": 600000},
+		Runs:      map[string]int{"quick": 200000, "thorough": 6000000},
 		Rule:      "seeded traces of 1-4 datasets (type x rank 1-4 x extents x layout x chunk shape x superblock version x data class), written, restarted (Close/Open, or Close/OpenForWrite+overwrite), read back through every typed read; non-trivial = at least one dataset was written and its values compared after the restart; distinct by (superblock version, multiset of (type, rank, chunk-divides?, filters))",
 		Technique: "deterministic simulation: seeded write/restart/read histories against a reference model over the simulated disk",
 		Assumptions: []string{"restart = Close then fresh Open; the simulated disk does not model loss of unsynced writes",
@@ -214,7 +214,7 @@ func init() {
 	harness.Register(&harness.Prop{
 		ID: "C02", Engine: "E1", Level: "exploration",
 		Gen: genC02, Exec: execC02,
-		Runs:      map[string]int{"quick": 40000, "thorough": 400000},
+		Runs:      map[string]int{"quick": 150000, "thorough": 4000000},
 		Rule:      "seeded histories of WriteAttribute/DeleteAttribute (1-300 calls, 4-24 names incl. 200-byte and UTF-8 names, all scalar kinds, strings 0-300 bytes, 1-D slices 1-64) on 1-3 objects with Close/OpenForWrite restarts inside the history; after every restart the attribute map read back must equal the model map; non-trivial = >=3 successful mutations and an attribute map verified after a restart; distinct by (superblock version, restarts, sequence of first 24 successful op kinds, storage classes verified)",
 		Technique: "deterministic simulation: seeded attribute histories with restarts vs map model over a simulated disk",
 		Assumptions: []string{"a call that returns an error leaves the model unchanged ('last successful write wins')",
@@ -383,7 +383,7 @@ func init() {
 	harness.Register(&harness.Prop{
 		ID: "C03", Engine: "E1", Level: "exploration",
 		Gen: genC03, Exec: execC03,
-		Runs:      map[string]int{"quick": 60000, "thorough": 1000000},
+		Runs:      map[string]int{"quick": 200000, "thorough": 6000000},
 		Rule:      "seeded creation histories (groups, datasets, hard/soft/external links, dense groups; depth 1-6+, >32 children in one group, long names, duplicate and missing-parent requests, links to ancestors) followed by Close/Open; the reopened tree must equal the model tree and the two rejections the statement demands must be errors; non-trivial = depth >= 2 or >= 1 link, and the file reopened; distinct by (superblock version, depth, links, successful ops, op kinds)",
 		Technique: "deterministic simulation: seeded namespace histories with capacity exhaustion vs tree model over a simulated disk",
 		Assumptions: []string{"only the two rejections named in the statement (existing name, missing parent) are demanded; any other call may fail (capacity) and then leaves the model unchanged",
